@@ -219,7 +219,7 @@ def build_db(path, P, clk, **kw):
     info['t_mid'] = clk.now + 0.5   # pack time option 'mid': frees old revisions and G
     for i in range(P.get('post', 2)):
         r['A']['v'] = r['B']['v'] = 60 + i
-        r['S'] = PersistentMapping(i=i)
+        r['S'] = PersistentMapping(i=i, pad='s%d.' % i * (P.get('pad', 0) // 3))
         transaction.commit()
     c.close()
     if P.get('reopen'):             # leave a saved index with a real position behind
@@ -263,6 +263,70 @@ class Note:
             t = s.by_ident.get(threading.get_ident())
             if t is not None:
                 s.events.append((t.name, 'note', text))
+
+
+class DirectedScheduler(sched.Scheduler):
+    """harness/sched.py's scheduler with an optional policy: a function of the scheduler (it reads the
+    event log) naming the thread to prefer at this yield point, or None for the seeded random choice.
+    Decisions are logged as usual, so a directed run replays from its decision list."""
+
+    def __init__(self, *a, policy=None, **kw):
+        sched.Scheduler.__init__(self, *a, **kw)
+        self.policy = policy
+
+    def _choose(self, cur):
+        if self.policy is not None and self.schedule is None and self.steps < self.max_steps:
+            en = [t for t in self.threads if self._enabled(t)]
+            want = self.policy(self) if en else None
+            if want is not None:
+                for i, t in enumerate(en):
+                    if t.name == want:
+                        self.steps += 1
+                        self.decisions.append(i)
+                        return t
+        return sched.Scheduler._choose(self, cur)
+
+
+def policy_vote_during_copy(crole, n):
+    """directed interleaving: let the packer reach its n-th hand-over of the commit lock in copyRest;
+    then committer c1 begins and votes (stops right before its status-byte write); the packer copies the
+    body and comes back for the lock; c1 finishes; the rest is random"""
+    st = dict(stage=0, i=0, rel=0, acq=False)
+
+    def policy(s):
+        evs = s.events
+        while st['i'] < len(evs):
+            th, kind, label = evs[st['i']]
+            st['i'] += 1
+            if st['stage'] == 0:
+                if th == 'p' and kind == 'acquired' and label == crole:
+                    st['acq'] = True
+                elif th == 'p' and kind == 'release' and label == crole and st['acq']:
+                    st['rel'] += 1
+                    if st['rel'] == n:
+                        st['stage'] = 1
+            elif st['stage'] == 1:
+                if th == 'c1' and kind == 'note' and label == 'status-write':
+                    st['stage'] = 2
+            elif st['stage'] == 2:
+                if th == 'p' and kind in ('acquire', 'block') and label == crole:
+                    st['stage'] = 3
+            elif st['stage'] == 3:
+                if th == 'c1' and kind == 'release' and label == crole:
+                    st['stage'] = 4
+        return {0: 'p', 1: 'c1', 2: 'p', 3: 'c1'}.get(st['stage'])
+    return policy
+
+
+def hook_vfs(rec, note):
+    """like sched.vfs_hook, plus a note before a committer's one-byte status write"""
+    def on_event(ev):
+        s = sched._current
+        if s is not None:
+            if ev[0] == 'write' and ev[1] == 'Data.fs' and len(ev[3]) == 1:
+                note('status-write')
+            s.yield_point('io', '%s %s' % (ev[0], ev[1] if len(ev) > 1 else ''))
+    rec.on_event = on_event
 
 
 def run_sched_case(P, tmp, schedule=None):
@@ -336,6 +400,8 @@ def run_sched_case(P, tmp, schedule=None):
                         r['A%d' % k]['v'] = r['B%d' % k]['v'] = v
                         r['A%d' % k]['seq'] = r['B%d' % k]['seq'] = n
                         r['C%d' % k]['n'] = n
+                        if P.get('pad'):
+                            r['C%d' % k]['pad'] = ('%d.%d.' % (k, i)) * (P['pad'] // 4)
                         if shared:
                             r['A']['v'] = r['B']['v'] = v
                         note('commit-call')
@@ -402,9 +468,12 @@ def run_sched_case(P, tmp, schedule=None):
         rec.events.clear()
         init_tids = [t.tid for t in fs.iterator()]
         _READ_YIELD[0] = bool(P.get('read_yield'))
-        s = sched.Scheduler(seed=P['seed'], schedule=schedule, stickiness=P.get('stick', 0.5))
+        policy = None
+        if P.get('directed') and P.get('post', 2) >= 1:
+            policy = policy_vote_during_copy(fs._commit_lock.role, P.get('post', 2))
+        s = DirectedScheduler(seed=P['seed'], schedule=schedule, stickiness=P.get('stick', 0.5), policy=policy)
         note.s = s
-        sched.vfs_hook(rec)
+        hook_vfs(rec, note)
         s.spawn('p', packer('p'))
         for k in range(1, P.get('committers', 1) + 1):
             s.spawn('c%d' % k, committer(k))
@@ -622,6 +691,8 @@ def record_pack(P, tmp):
                     r = c.root()
                     r['A1']['v'] = r['B1']['v'] = 2000 + i
                     r['C1']['n'] = i + 1
+                    if P.get('pad'):
+                        r['C1']['pad'] = ('1.%d.' % i) * (P['pad'] // 4)
                     if i % 2:
                         r['A']['v'] = r['B']['v'] = 2000 + i
                     tm.commit()
@@ -641,13 +712,28 @@ def record_pack(P, tmp):
         rec.on_event = None
         evs = list(rec.events)
         if res['deadlock'] or res['errors'] or res['results'].get('p') != 'ok':
-            db.close()
-            raise InfraError('recording run of a crash scenario failed: %r %r %r' % (
-                res['deadlock'], res['errors'], res['results']))
+            try:
+                db.close()
+            except Exception:           # noqa: B902
+                pass
+            if res['deadlock']:
+                raise SchedProblem('deadlock', 'deadlock while packing with one committer')
+            if res['errors']:
+                th, e = sorted(res['errors'].items())[0]
+                raise SchedProblem('%s-error:%s' % ('pack' if th == 'p' else 'commit', type(e).__name__),
+                                   'thread %s raised %r' % (th, e))
+            raise SchedProblem('pack-error:%s' % str(res['results'].get('p')).split(':')[1],
+                               'a pack concurrent with one plain committer failed: %s' % res['results'].get('p'))
         final = txn_dump(fs)
         rec.enabled = False
         db.close()
     return dict(init=init, events=evs, T=T, final=final, committed=committed, P=P)
+
+
+class SchedProblem(Exception):
+    def __init__(self, symptom, text):
+        Exception.__init__(self, text)
+        self.symptom, self.text = symptom, text
 
 
 def classify_events(R):
@@ -740,8 +826,11 @@ def crash_signature(R, k):
     if k <= first:
         last = R['events'][k - 1] if k else ('start',)
         return 'C08:crash-before-swap:%s' % ('pack-write' if last[0] in ('write', 'create') and
-                                             str(last[1]).endswith('.pack') else last[0])
+                                             str(last[1]).endswith('.pack') else
+                                             'commit-returned' if last[0] == 'mark' else last[0])
     last = R['events'][k - 1]
+    if last[0] == 'mark':
+        return 'C08:crash-after-swap:commit-returned'
     return 'C08:crash-after-swap:%s-%s' % (last[0], str(last[1]).replace('Data.fs', '').strip('.') or 'data')
 
 
@@ -811,7 +900,12 @@ def model_events(R, U):
 
 def run_crash_scenario(ck, P, tier_thorough, only_cut=None):
     """record one pack, enumerate cuts, judge each.  Returns number of cuts executed."""
-    R = record_pack(P, ck.tmp)
+    try:
+        R = record_pack(P, ck.tmp)
+    except SchedProblem as e:
+        ck.case(dict(kind='crash', P=P, cut=None), False)
+        ck.violation(sched_signature(e.symptom), e.text, dict(kind='crash', P=P))
+        return 0
     U, Pk = crash_references(R, ck.tmp)
     first, second = classify_events(R)
     evs = R['events']
@@ -830,13 +924,18 @@ def run_crash_scenario(ck, P, tier_thorough, only_cut=None):
                     else:
                         bs = sorted(set([1, n - 1] + [ck.rng.randrange(1, n) for _ in range(2)]))
                     cuts += [(k, b) for b in bs]
-    lines, kmap, rank = model_events(R, U)
-    qlines = lines + ['open %d' % kmap[k] for k, _ in cuts]
-    model_out = run_driver('PackDisk', qlines)[len(lines):]
+    try:
+        lines, kmap, rank = model_events(R, U)
+    except (KeyError, ValueError, IndexError):
+        # the recorded run does not have the shape of a pack any more (the oracle below will say why)
+        ck.count('crash-model-translation-failed')
+        rank = {t[0]: i + 1 for i, t in enumerate(U)}
+        lines, kmap = None, None
+    queries = []
     img = os.path.join(ck.tmp, 'img')
     first_pack_write = min([i for i, e in enumerate(evs) if e[0] == 'write' and e[1] == 'Data.fs.pack'])
     during = any(e[0] == 'mark' for e in evs[first_pack_write:first])
-    for (k, nb), mo in zip(cuts, model_out):
+    for (k, nb) in cuts:
         vfs.materialize(R['init'], evs, k, nb, img)
         D, problem = open_image(img)
         verdict = crash_oracle(R, U, Pk, k, D, problem)
@@ -854,10 +953,35 @@ def run_crash_scenario(ck, P, tier_thorough, only_cut=None):
                              k, repr(evs[k - 1][:3]) if k else 'start',
                              '' if nb is None else ' + %d bytes of the next write' % nb, verdict),
                          dict(kind='crash', P=P, cut=[k, nb]))
-        elif real != mo:
-            ck.mismatch('PackDisk model and real reopen differ at cut %r: real %s model %s' % ((k, nb), real, mo),
-                        dict(kind='crash', P=P, cut=[k, nb]))
+        elif lines is not None:
+            queries.append((kmap[k], real, [k, nb]))
+    if lines is not None:
+        ck.model_jobs.append(dict(P=P, lines=lines, queries=queries))
     return len(cuts)
+
+
+def check_disk_batch(ck):
+    """[model] feed the event lists of ALL crash scenarios to ONE PackDisk driver process and compare its
+    answer at every cut with what the real reopen gave (only cuts the direct oracle accepted)"""
+    jobs = ck.model_jobs
+    if not jobs:
+        return
+    allq = []
+    for j in jobs:
+        j['cuts'] = sorted(set(q[0] for q in j['queries']))
+        allq += j['lines'] + ['open %d' % c for c in j['cuts']]
+    out = run_driver('PackDisk', allq)
+    pos = 0
+    for j in jobs:
+        o = out[pos + len(j['lines']):pos + len(j['lines']) + len(j['cuts'])]
+        pos += len(j['lines']) + len(j['cuts'])
+        ans = dict(zip(j['cuts'], o))
+        ck.count('disk-model-scenarios')
+        for mc, real, cut in j['queries']:
+            if ans[mc] != real:
+                ck.mismatch('PackDisk model and real reopen differ at cut %r: real %s model %s' % (
+                    cut, real, ans[mc]), dict(kind='crash', P=j['P'], cut=cut))
+                break
 
 
 # ------------------------------------------------------------------------------------------------
@@ -1003,20 +1127,30 @@ def run_fault_scenario(ck, P, only=None):
 # generators
 # ------------------------------------------------------------------------------------------------
 def gen_sched_params(rng, i):
+    P = _gen_sched_params(rng, i)
+    if i % 5 == 4:          # directed: a commit is voted while the packer copies, finished before it returns
+        P.update(directed=1, ptime='mid', post=rng.choice([1, 2]), pad=rng.choice([3000, 9000, 9000]),
+                 second=0)
+    return P
+
+
+def _gen_sched_params(rng, i):
     return dict(seed=rng.randrange(10 ** 9), stick=rng.choice([0.0, 0.3, 0.5, 0.7, 0.9, 0.97]),
                 committers=rng.choice([1, 2, 2]), commits=rng.choice([2, 3, 4]),
                 shared=rng.choice([0, 1, 1]), undo=rng.choice([0, 0, 1]), reads=rng.choice([0, 3, 5]),
                 second=rng.choice([0, 0, 0, 1]), keep_old=rng.choice([True, True, False]),
                 ptime=rng.choice(['mid', 'mid', 'mid', 'now', 'future']), pre=rng.choice([1, 2, 3]),
                 post=rng.choice([0, 1, 2, 4]), read_yield=rng.choice([0, 0, 1]),
-                reopen=rng.choice([0, 0, 1]), long_reader=rng.choice([0, 1]))
+                reopen=rng.choice([0, 0, 1]), long_reader=rng.choice([0, 1]),
+                pad=rng.choice([0, 0, 3000, 9000]))
 
 
 def gen_crash_params(rng, i):
     return dict(seed=rng.randrange(10 ** 9), stick=rng.choice([0.3, 0.6, 0.9]),
                 commits=[2, 0, 3, 1, 2][i % 5], keep_old=bool(i % 2 == 0), prepack=int(i % 3 == 1),
                 reopen=int(i % 4 == 2), ptime=['mid', 'mid', 'now', 'mid', 'future'][i % 5],
-                pre=rng.choice([1, 2, 3]), post=rng.choice([1, 2, 3]), gsize=rng.choice([1, 3, 400]))
+                pre=rng.choice([1, 2, 3]), post=rng.choice([1, 2, 3]), gsize=rng.choice([1, 3, 400]),
+                pad=rng.choice([0, 0, 3000]))
 
 
 def gen_fault_params(rng, i):
@@ -1047,6 +1181,22 @@ def sched_job(args):
     if obs['deadlock'] or obs['problems']:
         small['decisions'] = obs['decisions']
     return small
+
+
+def sched_job_safe(args):
+    """sched_job, with an exception escaping from the real code (set-up, close) turned into a problem"""
+    try:
+        return sched_job(args)
+    except InfraError:
+        raise
+    except Exception as e:          # noqa: B902
+        try:
+            transaction.abort()
+        except Exception:           # noqa: B902
+            pass
+        return dict(P=args[0], deadlock=False, problems=[('escaped:%s' % type(e).__name__, repr(e))],
+                    results={}, steps=0, nontrivial=False, ndec=0, returned=0, T=None, proto=None,
+                    decisions=[])
 
 
 def proto_lines(obs):
@@ -1161,8 +1311,14 @@ def sched_signature(sym):
     return 'C08:sched:' + sym
 
 
+_SHRUNK = [0]
+
+
 def shrink_sched(P, decisions, tmp, symptom):
     """delta-debug the decision list (replay: exhausted schedule = keep running the current thread)"""
+    _SHRUNK[0] += 1
+    if _SHRUNK[0] > 2:
+        return decisions
     def fails(dec):
         o = run_sched_case(P, tmp, schedule=list(dec))
         if symptom == 'deadlock':
@@ -1171,7 +1327,7 @@ def shrink_sched(P, decisions, tmp, symptom):
     try:
         if not fails(decisions):
             return decisions
-        return ddmin(decisions, fails, max_tests=120)
+        return ddmin(decisions, fails, max_tests=60)
     except Exception:           # noqa: B902
         return decisions
 
@@ -1233,13 +1389,54 @@ def check_proto_batch(ck, batch):
                         dict(kind='sched', P=P, actions=pr['lines']))
 
 
-# ------------------------------------------------------------------------------------------------
 def load_corpus():
     cases = []
     for f in sorted(glob.glob(os.path.join(VERIF, 'corpus', 'C08', '*.json'))):
         with open(f) as fh:
             cases.append(json.load(fh)['case'])
     return cases
+
+
+class Collector:
+    """stands in for `Check` inside worker processes: same recording API, picklable result"""
+
+    def __init__(self, seed, tmp, thorough):
+        import random
+        self.rng = random.Random('C08-col-%r' % (seed,))
+        self.tmp, self.thorough = tmp, thorough
+        self.cases, self.counts, self.violations, self.mismatches, self.model_jobs = [], {}, [], [], []
+        self.proto = []
+
+    def case(self, canonical, nontrivial, sample=None):
+        self.cases.append((canonical, nontrivial, sample))
+
+    def count(self, key, n=1):
+        self.counts[key] = self.counts.get(key, 0) + n
+
+    def violation(self, signature, what, case):
+        if len(self.violations) < 20:
+            self.violations.append((signature, what, case))
+
+    def mismatch(self, what, case):
+        if len(self.mismatches) < 20:
+            self.mismatches.append((what, case))
+
+    def result(self):
+        return dict(cases=self.cases, counts=self.counts, violations=self.violations,
+                    mismatches=self.mismatches, model_jobs=self.model_jobs, proto=self.proto)
+
+
+def merge(ck, res):
+    for canonical, nontrivial, sample in res['cases']:
+        ck.case(canonical, nontrivial, sample)
+    for k, v in res['counts'].items():
+        ck.count(k, v)
+    for sig, what, case in res['violations']:
+        ck.violation(sig, what, case)
+    for what, case in res['mismatches']:
+        ck.mismatch(what, case)
+    ck.model_jobs += res['model_jobs']
+    ck.proto_batch += res['proto']
 
 
 def run_script_case(ck, case):
@@ -1260,13 +1457,34 @@ def run_script_case(ck, case):
                          dict(kind='script', script=case['script']))
 
 
-def run_case(ck, case, proto_batch):
+def run_case(ck, case):
+    """run one case; an exception of the real code escaping from a scenario (set-up pack, close, …) is
+    reported as a violation with the case as replay, never as a harness crash"""
+    import traceback
+    try:
+        _run_case(ck, case)
+    except InfraError:
+        raise
+    except Exception as e:          # noqa: B902
+        try:
+            transaction.abort()
+        except Exception:           # noqa: B902
+            pass
+        tb = traceback.extract_tb(e.__traceback__)
+        where = [f for f in tb if '/ZODB/' in f.filename]
+        ck.violation('C08:%s:escaped:%s' % (case['kind'], type(e).__name__),
+                     'the scenario raised %s: %s (%s)' % (type(e).__name__, e, (
+                         '%s:%d' % (os.path.basename(where[-1].filename), where[-1].lineno)) if where else
+                         'harness'), case)
+
+
+def _run_case(ck, case):
     kind = case['kind']
     if kind == 'sched':
-        small = sched_job((case['P'], os.path.join(ck.tmp, 'w0'), case.get('schedule')))
-        judge_sched(ck, small, proto_batch)
+        small = sched_job_safe((case['P'], os.path.join(ck.tmp, 'w0'), case.get('schedule')))
+        judge_sched(ck, small, ck.proto)
     elif kind == 'crash':
-        run_crash_scenario(ck, case['P'], ck.thorough, only_cut=case.get('cut'))
+        run_crash_scenario(ck, case['P'], case.get('thorough', ck.thorough), only_cut=case.get('cut'))
     elif kind == 'fault':
         run_fault_scenario(ck, case['P'], only=case.get('fail_at'))
     elif kind == 'script':
@@ -1275,39 +1493,53 @@ def run_case(ck, case, proto_batch):
         raise InfraError('unknown case kind %r' % kind)
 
 
+def case_job(args):
+    """one case in a worker process (or inline): returns the collector's result"""
+    case, seed, tmp, thorough = args
+    tmp = os.path.join(tmp, 'w%d' % os.getpid())
+    os.makedirs(tmp, exist_ok=True)
+    col = Collector(seed, tmp, thorough)
+    run_case(col, case)
+    return col.result()
+
+
 def main(argv=None):
+    import tempfile
+    if 'TMPDIR' not in os.environ and os.path.isdir('/dev/shm') and os.access('/dev/shm', os.W_OK):
+        tempfile.tempdir = '/dev/shm'       # thousands of commits fsync their scratch Data.fs
     ck = Check('C08', argv)
     ck.extra['modules'] = ['Props.C08', 'Drivers.PackDisk', 'Drivers.PackProto']
     ck.run_gate(ck.extra['modules'], ['Props.C08'])
-    proto_batch = []
+    ck.model_jobs, ck.proto_batch = [], []
     if ck.replay_path:
         with open(ck.replay_path) as f:
             rp = json.load(f)
-        case = rp['case']
-        if case is None:
+        if rp.get('case') is None:
             raise InfraError('replay file carries no case')
-        run_case(ck, case, proto_batch)
+        cases = [rp['case']]
     else:
-        for case in load_corpus():
-            run_case(ck, case, proto_batch)
-        nsched = 110 if not ck.thorough else 5000
+        cases = load_corpus()
+        nsched = 150 if not ck.thorough else 5000
         ncrash = 6 if not ck.thorough else 100
         nfault = 3 if not ck.thorough else 24
-        params = [gen_sched_params(ck.rng, i) for i in range(nsched)]
-        jobs = [(P, os.path.join(ck.tmp, 'w%d' % (i % 64)), None) for i, P in enumerate(params)]
-        if ck.thorough:
-            import multiprocessing as mp
-            with mp.Pool(min(16, os.cpu_count() or 2)) as pool:
-                for small in pool.imap_unordered(sched_job, jobs, chunksize=8):
-                    judge_sched(ck, small, proto_batch)
-        else:
-            for j in jobs:
-                judge_sched(ck, sched_job(j), proto_batch)
-        for i in range(ncrash):
-            run_crash_scenario(ck, gen_crash_params(ck.rng, i), ck.thorough and i < 40)
-        for i in range(nfault):
-            run_fault_scenario(ck, gen_fault_params(ck.rng, i))
-    check_proto_batch(ck, proto_batch)
+        cases += [dict(kind='sched', P=gen_sched_params(ck.rng, i)) for i in range(nsched)]
+        cases += [dict(kind='crash', P=gen_crash_params(ck.rng, i), thorough=bool(ck.thorough and i < 40))
+                  for i in range(ncrash)]
+        cases += [dict(kind='fault', P=gen_fault_params(ck.rng, i)) for i in range(nfault)]
+    jobs = [(c, (ck.seed, i), ck.tmp, ck.thorough) for i, c in enumerate(cases)]
+    if ck.thorough and len(jobs) > 1:
+        import multiprocessing as mp
+        # long jobs (crash scenarios with every byte cut) first
+        order = sorted(range(len(jobs)), key=lambda i: (jobs[i][0]['kind'] != 'crash',
+                                                        not jobs[i][0].get('thorough'), i))
+        with mp.Pool(min(16, os.cpu_count() or 2)) as pool:
+            for res in pool.imap_unordered(case_job, [jobs[i] for i in order], chunksize=1):
+                merge(ck, res)
+    else:
+        for j in jobs:
+            merge(ck, case_job(j))
+    check_proto_batch(ck, ck.proto_batch)
+    check_disk_batch(ck)
     ck.finish(
         rule='(a) seeded schedules of 1 packer + 1-2 committers (+ undo) + reader (+ second packer) at '
              'lock-operation and raw file-I/O granularity, varying stickiness, pack time (mid / now / future), '
